@@ -73,6 +73,9 @@ def tasks(tier, seed, selftest=False):
         # modular networks: a 3-variable component constrained by the solver to have a motif-avoidant attractor,
         # next to an independent switch / source (products are composed from the components' atoms)
         S.append(dict(family="P:MAA3+SW2", skeleton=sk, timebox=40 if q else 900))
+        # inputs presented as free inputs (variables without update function)
+        S.append(dict(family="D3", skeleton=sk, timebox=10 if q else 600, tag="free-inputs", params={"free_inputs": True}))
+        S.append(dict(family="S1C2", skeleton=sk, timebox=10 if q else 600, tag="free-inputs", params={"free_inputs": True}))
         if not q:
             S.append(dict(family="P:MAA3+SRC1", skeleton=sk, timebox=600))
             S.append(dict(family="P:D3+SW2", skeleton=sk, timebox=600))
